@@ -414,6 +414,8 @@ func main() {
 		ks, ps := keys, pats
 		if r.Chance(1, 3) { // a sequence with the empty key
 			ks, ps = keysE, patsE
+		} else if r.Chance(1, 5) { // keys that differ only in what a path cleaner removes: different keys all the same
+			ks = []string{"j/7", "j/7/", "j//7", "j/./7", "x/../j/7"}
 		}
 		for j := range ops {
 			ops[j] = randomOp(r, ks, ps)
